@@ -43,8 +43,9 @@ type Config struct {
 
 // Fault plan (C19): what happens instead of downlink message number At (0-based; -1 = no fault).
 type Fault struct {
-	At   int
-	Kind string // "close" | "garbage:<variant>"
+	At       int
+	Kind     string // "close" | "close-after" | "abort" | "garbage:<variant>"
+	AtUplink int    // "abort": ordinal of the uplink message that is left unread (the one that would trigger downlink At)
 }
 
 // Choices are the AMF-side decisions of a scenario, all drawn from the scenario PRNG.
@@ -165,6 +166,20 @@ func (a *AMF) fail(key, format string, args ...any) {
 }
 func (a *AMF) observe(k string) { a.Observ[k]++ }
 
+// AbortDue tells the transport that the "abort" fault is due: the AMF ends the association WITHOUT reading the uplink
+// message that would have been answered by downlink message Fault.At (the peer then sees a reset, not an orderly end).
+func (a *AMF) AbortDue() bool {
+	a.mu.Lock()
+	defer a.mu.Unlock()
+	if a.Fault.Kind != "abort" || a.FaultFired || a.ULRecv != a.Fault.AtUplink {
+		return false
+	}
+	a.FaultFired = true
+	a.Closed = true
+	a.Events = append(a.Events, Event{N: len(a.Events), Dir: "down", UE: -1, Count: -1, Note: "FAULT: association aborted with the request still unread"})
+	return true
+}
+
 // NViolations is safe to call from another goroutine than the one feeding HandleUplink.
 func (a *AMF) NViolations() int {
 	a.mu.Lock()
@@ -190,7 +205,7 @@ func (a *AMF) down(ue int64, name string, tag string, pdu ngapType.NGAPPDU, nasN
 	}
 	idx := a.DLSent
 	ev := Event{N: len(a.Events), Dir: "down", UE: ue, NGAP: name, NAS: nasName, SHT: sht, Count: count}
-	if a.Fault.At == idx && !a.FaultFired {
+	if a.Fault.At == idx && !a.FaultFired && a.Fault.Kind != "abort" {
 		a.FaultFired = true
 		if a.Fault.Kind == "close" {
 			ev.Note = "FAULT: connection closed instead of sending this message"
@@ -289,6 +304,18 @@ func Garbage(kind string, valid []byte, r *rand.Rand) []byte {
 			b = b[:2+r.Intn(2)] // cut right after the header
 		}
 		return b
+	case "sctp-notification-shaped":
+		// laid out like an SCTP event record (sn_type 0x8001.., flags, 32-bit length equal to the message length): what a
+		// transport layer hands over when notifications are enabled - to NGAP it is undecodable all the same
+		t := []byte{1, 2, 3, 4, 6, 7, 8, 9}[r.Intn(8)]
+		n := 20 + 4*r.Intn(3)
+		b := make([]byte, n)
+		b[0], b[1] = t, 0x80
+		b[4], b[5], b[6], b[7] = byte(n), byte(n>>8), 0, 0
+		if t != 1 {
+			r.Read(b[8:])
+		}
+		return b
 	case "other-type-truncated": // starts like a message of ANOTHER procedure (decodes partially before failing), cut in half
 		b := append([]byte(nil), valid[:len(valid)/2+1]...)
 		heads := [][2]byte{{0x00, 0x04}, {0x00, 0x0e}, {0x00, 0x1d}, {0x20, 0x15}, {0x00, 0x29}, {0x00, 0x1c}, {0x20, 0x0e}}
@@ -305,7 +332,7 @@ func Garbage(kind string, valid []byte, r *rand.Rand) []byte {
 	}
 }
 
-var GarbageKinds = []string{"garbage:one-octet", "garbage:random32", "garbage:truncated-half", "garbage:choice3", "garbage:random2048", "garbage:bad-length", "garbage:zeros", "garbage:truncated-1", "garbage:random2047", "garbage:random8192", "garbage:other-type-truncated", "garbage:dl-nas-header", "garbage:unsolicited-header", "garbage:late-17s"}
+var GarbageKinds = []string{"garbage:one-octet", "garbage:random32", "garbage:truncated-half", "garbage:choice3", "garbage:random2048", "garbage:bad-length", "garbage:zeros", "garbage:truncated-1", "garbage:random2047", "garbage:random8192", "garbage:other-type-truncated", "garbage:dl-nas-header", "garbage:unsolicited-header", "garbage:late-17s", "garbage:sctp-notification-shaped"}
 
 func pickByte(r *rand.Rand, xs ...byte) byte { return xs[r.Intn(len(xs))] }
 
